@@ -10,6 +10,10 @@
               ALMSolver<ZeroFPRSolver<LBFGS | StructuredLBFGS | Anderson | Noop Direction>>
                                                                      AlmZeroFprDir.alm_zerofpr_dir (Alm.v ∘ ZeroFprDir.v with the providers of Directions.v;
                                                                      provider state persisting across inner solves; update_direction_from_prox_step on/off)
+  pantr-newtontr
+              ALMSolver<PANTRSolver<NewtonTRDirection>>              AlmPantrDir.alm_pantr_dir (Alm.v ∘ PantrDir.v with DirectionsTR.newton_tr_dir over
+                                                                     Steihaug.cg_solve; exact Hessian products and finite differences; the provider object —
+                                                                     the y / Σ it stores at initialize — persists across inner solves, the trust radius does not)
 all composed by AlmCompose.v on a problem seen through the vtable model of AugLag.v.
 proof: Properties_C01.v (end-to-end theorems: the composed models return Converged only with an approximate KKT point of the user's problem);
 correspondence: Corr_ALMSTACKS.chkalmstacks — the composed models at binary64, instantiated with the drv_solve problem family (all provider masks,
@@ -21,17 +25,21 @@ oracle: structural clauses on the implementation's outputs (+ the calling proper
 import copy, math
 from vf.core import *
 from vf import solvelib as sl
-from vf.props import PANOC, PANTR, FISTA, PANOCDIR, ALMPANOC
+from vf.props import PANOC, PANTR, FISTA, PANOCDIR, PANTRDIR, ALMPANOC
 
 INF = float("inf")
 SCRIPTED = ["zerofpr", "pantr", "fista"]
 PROVIDERS = ["lbfgs", "struclbfgs", "anderson", "noop"]
 ZPROVIDERS = ["zfpr-" + s for s in PROVIDERS]
-STACKS = SCRIPTED + PROVIDERS + ZPROVIDERS
+TPROVIDERS = ["pantr-newtontr"]
+STACKS = SCRIPTED + PROVIDERS + ZPROVIDERS + TPROVIDERS
 
 def provider(stack):
     """the shipped direction provider of a provider stack (PANOC: the stack name itself; ZeroFPR: zfpr-<provider>), None for the scripted stacks"""
-    return stack[5:] if stack in ZPROVIDERS else stack if stack in PROVIDERS else None
+    return stack[5:] if stack in ZPROVIDERS else stack if stack in PROVIDERS else "newtontr" if stack in TPROVIDERS else None
+
+def pantr_inner(stack):
+    return stack == "pantr" or stack in TPROVIDERS
 
 def zfpr_inner(stack):
     return stack == "zerofpr" or stack in ZPROVIDERS
@@ -40,12 +48,15 @@ REAL = dict(zerofpr="ALMSolver<ZeroFPRSolver<ScriptedDirection>>", pantr="ALMSol
             anderson="ALMSolver<PANOCSolver<AndersonDirection>>", noop="ALMSolver<PANOCSolver<NoopDirection>>")
 REAL.update({"zfpr-lbfgs": "ALMSolver<ZeroFPRSolver<LBFGSDirection>>", "zfpr-struclbfgs": "ALMSolver<ZeroFPRSolver<StructuredLBFGSDirection>>",
              "zfpr-anderson": "ALMSolver<ZeroFPRSolver<AndersonDirection>>", "zfpr-noop": "ALMSolver<ZeroFPRSolver<NoopDirection>>"})
+REAL["pantr-newtontr"] = "ALMSolver<PANTRSolver<NewtonTRDirection>>"
 MODEL = dict(zerofpr="AlmZeroFpr.alm_zerofpr", pantr="AlmPantr.alm_pantr", fista="AlmFista.alm_fista", lbfgs="AlmPanocDir.alm_panoc_dir (lbfgs_dir)",
              struclbfgs="AlmPanocDir.alm_panoc_dir (struct_dir)", anderson="AlmPanocDir.alm_panoc_dir (anderson_dir)", noop="AlmPanocDir.alm_panoc_dir (noop_dir)")
 MODEL.update({"zfpr-lbfgs": "AlmZeroFprDir.alm_zerofpr_dir (lbfgs_dir)", "zfpr-struclbfgs": "AlmZeroFprDir.alm_zerofpr_dir (struct_dir)",
               "zfpr-anderson": "AlmZeroFprDir.alm_zerofpr_dir (anderson_dir)", "zfpr-noop": "AlmZeroFprDir.alm_zerofpr_dir (noop_dir)"})
-REQUIRES = ("Prox SolverStatus SolverKernels AugLag Lbfgs LMQR Panoc ZeroFpr Pantr FistaLoop Directions PanocDir ZeroFprDir Alm AlmCompose AlmPanoc AlmZeroFpr AlmPantr "
-            "AlmFista AlmPanocDir AlmZeroFprDir Corr_PANOC Corr_ZEROFPR Corr_PANTR Corr_FISTA Corr_PANOCDIR Corr_ALMPANOC Corr_ALMSTACKS")
+MODEL["pantr-newtontr"] = "AlmPantrDir.alm_pantr_dir (newton_tr_dir)"
+REQUIRES = ("Prox SolverStatus SolverKernels AugLag Lbfgs LMQR Panoc ZeroFpr Pantr FistaLoop Directions PanocDir ZeroFprDir Steihaug DirectionsTR PantrDir "
+            "Alm AlmCompose AlmPanoc AlmZeroFpr AlmPantr AlmFista AlmPanocDir AlmZeroFprDir AlmPantrDir "
+            "Corr_PANOC Corr_ZEROFPR Corr_PANTR Corr_FISTA Corr_PANOCDIR Corr_PANTRDIR Corr_ALMPANOC Corr_ALMSTACKS")
 
 ZKEYS = dict(PANOC.KEYS, from_prox="solver.update_direction_from_prox_step")
 ZDEFAULTS = dict(PANOC.DEFAULTS, from_prox=False)
@@ -56,10 +67,10 @@ class _Accel:
     def __init__(self, direction, A, Dp):
         self.direction, self.A, self.Dp = direction, A, Dp
     def A_(self, k):
-        d = PANOCDIR.ANDERSON_DEFAULTS if self.direction == "anderson" else PANOCDIR.LBFGS_DEFAULTS
+        d = PANTRDIR.ACCEL_DEFAULTS if self.direction == "newtontr" else PANOCDIR.ANDERSON_DEFAULTS if self.direction == "anderson" else PANOCDIR.LBFGS_DEFAULTS
         return self.A.get(k, d[k])
     def D_(self, k):
-        return self.Dp.get(k, PANOCDIR.DIR_DEFAULTS[k])
+        return self.Dp.get(k, (PANTRDIR.DIR_DEFAULTS if self.direction == "newtontr" else PANOCDIR.DIR_DEFAULTS)[k])
 
 
 class Case:
@@ -71,7 +82,8 @@ class Case:
         self.A, self.Dp = dict(A or {}), dict(Dp or {})
         self.always, self.tol, self.time0 = True, 0.0, False      # overridden by ALM (with_opts); placeholders for the per-solver term printers
         self.accel = _Accel(provider(stack) or stack, self.A, self.Dp)
-        keys = ZKEYS if zfpr_inner(stack) else {"pantr": PANTR.KEYS, "fista": FISTA.KEYS}.get(stack, PANOC.KEYS)
+        keys = ZKEYS if zfpr_inner(stack) else PANTR.KEYS if pantr_inner(stack) else {"fista": FISTA.KEYS}.get(stack, PANOC.KEYS)
+        akeys, dkeys = (PANTRDIR.ACCEL_KEYS, PANTRDIR.DIR_KEYS) if stack in TPROVIDERS else (PANOCDIR.ACCEL_KEYS, PANOCDIR.DIR_KEYS)
         params = []
         for k, v in P.items():
             params.append("xcrit=%s" % v if k == "crit" else "%s=%s" % (keys[k], PANOC.pstr(v)))
@@ -79,22 +91,22 @@ class Case:
             if k == "curvature":
                 params.append("accel.stepsize=%s" % ("BasedOnCurvature" if v else "BasedOnExternalStepSize"))
             else:
-                params.append("%s=%s" % (PANOCDIR.ACCEL_KEYS[k], PANOC.pstr(v)))
+                params.append("%s=%s" % (akeys[k], PANOC.pstr(v)))
         for k, v in self.Dp.items():
             if k == "use_scaled":
                 params.append("dir.failure_policy=%s" % ("UseScaledLBFGSInput" if v else "FallbackToProjectedGradient"))
             else:
-                params.append("%s=%s" % (PANOCDIR.DIR_KEYS[k], PANOC.pstr(v)))
+                params.append("%s=%s" % (dkeys[k], PANOC.pstr(v)))
         for k, v in AP.items():
             params.append("%s=%s" % (ALMPANOC.AKEYS[k], PANOC.pstr(v)))
-        solver = stack if stack in SCRIPTED else "zerofpr" if stack in ZPROVIDERS else "panoc"
+        solver = stack if stack in SCRIPTED else "zerofpr" if stack in ZPROVIDERS else "pantr" if stack in TPROVIDERS else "panoc"
         direction = "-" if stack == "fista" else "scripted" if stack in SCRIPTED else provider(stack)
         self.rq = sl.Request(prob, x0, y0, S0, solver, direction, mode, params, always=True, tol=0.0,
                              stop_at_eval=stop_eval, stop_at_cb=stop_cb, stop_at_dircall=stop_dir, script=self.script, script_initial=initial)
 
     def P_(self, k):
         if k in self.P: return self.P[k]
-        if self.stack == "pantr":
+        if pantr_inner(self.stack):
             return PANTR.BASE_DEFAULTS[k] if k in PANTR.BASE_DEFAULTS else PANTR.TR_DEFAULTS[k]
         if self.stack == "fista": return FISTA.DEFAULTS[k]
         return ZDEFAULTS[k]
@@ -104,7 +116,7 @@ class Case:
         return self.AP.get(k, ALMPANOC.ADEFAULTS[k])
 
     def hv(self):
-        return provider(self.stack) == "struclbfgs" and self.accel.D_("hvf") != 0.0
+        return (provider(self.stack) == "struclbfgs" and self.accel.D_("hvf") != 0.0) or self.stack in TPROVIDERS
 
     inner_tol = ALMPANOC.Case.inner_tol
 
@@ -120,11 +132,18 @@ def coq_stack(cs):
         return "(StkPantr %s %s %s)" % (PANTR.coq_trparams(cs), coqlist([coqnat(v) for v in cs.script]), coqbool(cs.initial))
     if s == "fista":
         return "(StkFista %s)" % FISTA.coq_params(cs)
+    if s in TPROVIDERS:
+        a = cs.accel
+        mitab = [PANTRDIR.round_half_away(float(nJ) * a.A_("max_iter_factor")) for nJ in range(cs.prob.n + 1)]
+        return "(StkTDir %s %s %s %s %s %s %s %s %s)" % (PANTR.coq_trparams(cs), coqf(a.D_("hvf")), coqbool(a.D_("fd")), coqf(a.D_("fdstep")),
+                                                        coqf(a.A_("tol_scale")), coqf(a.A_("tol_scale_root")), coqf(a.A_("tol_max")),
+                                                        coqlist([coqZ(v) for v in mitab]), coqbool(cs.prob.hess))
     if s in ZPROVIDERS:
         return "(StkZDir %s %s %s %s)" % (PANOC.coq_params(cs), coqbool(cs.P_("from_prox")), PANOCDIR.coq_sel(cs.accel), coqbool(cs.prob.hess))
     return "(StkDir %s %s %s)" % (PANOC.coq_params(cs), PANOCDIR.coq_sel(cs.accel), coqbool(cs.prob.hess))
 
 REC = dict(zerofpr=("RX", PANOC.coq_rec), pantr=("RY", PANTR.coq_rec), fista=("RF", FISTA.coq_rec))
+REC["pantr-newtontr"] = ("RY", PANTR.coq_rec)
 
 def coq_srec(cs, r):
     ctor, f = REC.get(cs.stack, ("RX", PANOC.coq_rec))
@@ -140,7 +159,7 @@ def coq_case(cs, o):
         impl = "false %s %s %s %s %s %s %s %s %s %s" % (
             o["status"], coqnat(o["outer_iterations"]), coqf(D(o, "eps")), coqf(D(o, "delta")), coqf(D(o, "norm_penalty")),
             coqnat(o["inner_convergence_failures"]), coqnat(o["inner_iterations"]), coqvec(V(o, "x_out")), coqvec(V(o, "y_out")), coqvec(V(o, "Sigma_out")))
-    fuel, lsfuel = (cs.P_("max_iter") + 4, 400) if cs.stack == "pantr" else (cs.P_("max_iter") + 8, 3000)
+    fuel, lsfuel = (cs.P_("max_iter") + 4, 400) if pantr_inner(cs.stack) else (cs.P_("max_iter") + 8, 3000)
     return ("(SKCase %s %s %s %s %s %s %s %s %s %s %s %s %s %s %s %s %s %s %s %s %s %s %s %s %s %s %s %s %s %s)" %
             (coqnat(p.n), PANOC.coqmat(p.Q), coqvec(p.c), coqvec(p.w), PANOC.coqmat(p.A), coqvec(p.d), coqvec(p.Clb), coqvec(p.Cub), coqvec(p.Dlb), coqvec(p.Dub),
              coqvec(p.l1), coqnat(p.split), coqnat((cs.rq.prov & 0xfe) >> 1), coqvec(cs.x0), coqvec(cs.y0), coqvec(cs.S0), coqbool(cs.mode == "alm"),
@@ -192,6 +211,30 @@ def convert(ctx, stack, b):
             rand_tr_params(rng, P)
             script = [rng.choice([0, 1, 1, 1, 2, 2, 3, 3, 3, 4, 5, 6, 6, 7, 8]) for _ in range(rng.randint(1, 6))]
             initial = rng.random() < 0.4
+    elif stack in TPROVIDERS:
+        # the real PANTRSolver<NewtonTRDirection>: problems with Hessian products (exact mode) resp. dir.finite_diff = true
+        P = {k: v for k, v in P.items() if k in ("max_iter", "crit", "L_0", "L_max", "L_min", "Lgamma", "max_no_progress", "qub_tol", "recompute")}
+        script, initial = [], False
+        if conv:
+            if rng.random() < 0.4: P["init_radius"] = rng.choice([1.0, 8.0, 0.125])
+        elif dyadic:
+            P["tr_tol"] = 0.0
+        else:
+            PANTRDIR.gen_trparams(rng, P)
+            if rng.random() < 0.5:
+                # active box sides matter (the index set J): tighter boxes, more often bounded (PANTRDIR.gen_random)
+                prob.Clb, prob.Cub = sl.gen_bounds(rng, prob.n, lo=-2.0, hi=2.0, p_free=0.2, p_one=0.3, p_eq=0.05)
+        A, Dp = ({}, {}) if dyadic else PANTRDIR.gen_dirparams(rng)
+        if dyadic and rng.random() < 0.5: Dp = {"fd": True, "fdstep": 2.0 ** -20}
+        if conv:
+            A.pop("max_iter_factor", None)
+        prob.hess = True
+        if not (conv or dyadic) and rng.random() < (0.5 if Dp.get("fd") else 0.04):
+            prob.hess = False                          # exact products without a Hessian member: initialize throws
+        elif Dp.get("fd") and rng.random() < 0.5:
+            prob.hess = False
+        if kw["stop_dir"] >= 0: kw["stop_eval"], kw["stop_dir"] = kw["stop_dir"] * 4, -1      # the shipped provider is not instrumented
+        if kw["stop_eval"] >= 0: kw["stop_cb"], kw["stop_eval"] = kw["stop_eval"] // 8, -1     # Hessian products / CG gradients are not events of the loop model
     elif stack == "fista":
         P = {k: v for k, v in P.items() if k in ("max_iter", "crit", "Lgamma", "max_no_progress", "qub_tol")}
         if conv:
@@ -227,7 +270,7 @@ def gen_cases(ctx, scale):
     out = []
     for stack in STACKS:
         w = (1.0 if stack in ("lbfgs", "struclbfgs") else 0.75 if stack in SCRIPTED or stack == "anderson" else 0.35 if stack == "noop" else
-             0.5 if stack in ("zfpr-lbfgs", "zfpr-struclbfgs") else 0.4 if stack == "zfpr-anderson" else 0.2)
+             0.5 if stack in ("zfpr-lbfgs", "zfpr-struclbfgs") else 0.4 if stack == "zfpr-anderson" else 0.6 if stack in TPROVIDERS else 0.2)
         nc = max(6, int(w * scale * ctx.n(220, 1600)))
         nr = max(12, int(w * scale * ctx.n(420, 3400)))
         base = ALMPANOC.gen_dyadic(ctx)[::3 if stack != "lbfgs" else 1] + ALMPANOC.gen_converging(ctx, nc) + ALMPANOC.gen_random(ctx, nr)
@@ -239,6 +282,11 @@ def exception_expected(cs, msg):
     """the only exceptions a shipped provider may raise on this problem family (PANOCDIR.oracle)"""
     a = cs.accel
     prv = provider(cs.stack)
+    if prv == "newtontr":
+        # NewtonTRDirection: the capability check of initialize; apply with a radius below ε_mach (min_radius below it) or a non-finite one
+        return (("NewtonTR without finite differences" in msg and not a.D_("fd") and not cs.prob.hess) or
+                ("Trust radius too small" in msg and cs.P_("min_radius") < 2.0 ** -52) or
+                ("Invalid trust radius" in msg))
     return (prv is not None and prv != "noop" and
             (("memory must be >= 1" in msg and a.A_("memory") < 1) or
              ("CBFGS check not supported" in msg and prv == "struclbfgs" and a.A_("cbfgs_eps") > 0) or
@@ -264,7 +312,7 @@ def near_tie(cs, o):
     1e-9 relative for the scripted stacks, 2 ulp — PANOCDIR.near_tie — for the shipped providers) and ALM's termination test"""
     tight = provider(cs.stack) is not None
     rel = 2.0 ** -51 if tight else 1e-9
-    inner = PANOCDIR.near_tie if tight else {"zerofpr": PANOC.near_tie, "pantr": PANTR.near_tie, "fista": FISTA.near_tie}[cs.stack]
+    inner = PANTRDIR.near_tie if cs.stack in TPROVIDERS else PANOCDIR.near_tie if tight else {"zerofpr": PANOC.near_tie, "pantr": PANTR.near_tie, "fista": FISTA.near_tie}[cs.stack]
     by_outer = {}
     for r in o.get("records", []):
         by_outer.setdefault(r["outer"], []).append(r)
@@ -286,7 +334,13 @@ def signature(cs, o):
     inner = "".join(r["status"][0] + ("" if r["status"] != "MaxIter" else "i") for r in recs if r["status"] != "Busy")[:6]
     flags = "".join(k[0] for k in ("eager", "recompute", "upd", "force", "from_prox", "noaccel") if cs.P.get(k)) + ("S" if cs.A_("single") else "") + ("P" if cs.rq.prov else "")
     prv = provider(cs.stack)
-    if prv and prv != "noop":
+    if prv == "newtontr":
+        a = cs.accel
+        flags += ("/F" if a.D_("fd") else "/E") + ("" if a.D_("hvf") != 0 else "0") + ("" if a.A_("max_iter_factor") == 1 else "i") + ("" if cs.prob.hess else "h") + \
+                 "".join(k[0] for k in ("ratio_new_step", "upd_on_prox", "disable_accel", "ratio_approx") if cs.P_(k))
+        multi = sum(1 for r in recs if r["outer"] > 0 and r["status"] == "Busy") > 0
+        flags += "+" if multi else ""
+    elif prv and prv != "noop":
         a = cs.accel
         flags += "/m%d" % min(a.A_("memory"), 6)
         if prv != "anderson":
@@ -299,13 +353,13 @@ def signature(cs, o):
 
 # ------------------------------------------------------------------ run
 def run(ctx):
-    ctx.coverage["rule"] = ("whole runs of ALMSolver over ZeroFPR / PANTR (scripted directions with global call index), FISTA, and PANOC and ZeroFPR (update_direction_from_prox_step on/off) with the four SHIPPED direction providers "
+    ctx.coverage["rule"] = ("whole runs of ALMSolver over ZeroFPR / PANTR (scripted directions with global call index), FISTA, PANTR with the SHIPPED NewtonTRDirection / SteihaugCG (exact Hessian products and dir.finite_diff=true, all SteihaugCG / NewtonTR parameters), and PANOC and ZeroFPR (update_direction_from_prox_step on/off) with the four SHIPPED direction providers "
                             "(LBFGS, StructuredLBFGS incl. Hessian-vector term by finite differences / eval_hess_L_prod / eval_hess_ψ_prod and both failure policies, Anderson, Noop; "
                             "memory 1..5 and 10, CBFGS, rescaling, provider state persisting across inner solves, provider exceptions) on the drv_solve problem family (n<=3, m<=3 incl. m=0, "
                             "boxes C and D with free / one-sided / range / equal rows, penalty_alm_split, provider masks = problem-supplied combined members with poisoned work buffers), "
                             "alm.max_iter<=6, solver.max_iter<=15, varied ALM parameters (tolerances, penalty update / initial penalty incl. automatic, tolerance update, increase threshold, "
                             "max_multiplier, max/min penalty, single factor; caller Sigma valid / zero / non-finite / absent) and inner-solver parameters, stop() injected at cumulative "
-                            "evaluation / callback / direction-call indices; one evaluation = one whole ALM run compared with the composed model (AlmZeroFpr / AlmPantr / AlmFista / AlmPanocDir / AlmZeroFprDir) "
+                            "evaluation / callback / direction-call indices; one evaluation = one whole ALM run compared with the composed model (AlmZeroFpr / AlmPantr / AlmFista / AlmPanocDir / AlmZeroFprDir / AlmPantrDir) "
                             "at binary64 (final statistics, x, y, Sigma, counts, every callback record of every inner solve); distinct = (stack, status, outer iterations, inner statuses, flags)")
     ctx.assumptions += ["theorems over ideal reals (binary64 rounding is covered by the whole-run correspondence only)",
                         "problem functions, direction provider, stop flag and clocks are arbitrary oracles in the theorems; provider_ok / grad_g_prod_empty_ok are hypotheses (C04)",
@@ -317,7 +371,7 @@ def run(ctx):
 def attach(ctx, scale=1.5, extra_oracle=None):
     """used by C01: run the whole-run correspondence of the composed models AlmZeroFpr / AlmPantr / AlmFista / AlmPanocDir against the real stacks and
     evaluate the calling property's own predicate on each of these runs; violations get the calling property's prefix"""
-    ctx.assumptions.append("composed ALM/ZeroFPR, ALM/PANTR, ALM/FISTA, ALM/PANOC+shipped-provider and ALM/ZeroFPR+shipped-provider models (AlmZeroFpr.v, AlmPantr.v, AlmFista.v, AlmPanocDir.v, AlmZeroFprDir.v; end-to-end theorems of "
+    ctx.assumptions.append("composed ALM/ZeroFPR, ALM/PANTR, ALM/FISTA, ALM/PANOC+shipped-provider, ALM/ZeroFPR+shipped-provider and ALM/PANTR+NewtonTR models (AlmZeroFpr.v, AlmPantr.v, AlmFista.v, AlmPanocDir.v, AlmZeroFprDir.v, AlmPantrDir.v; end-to-end theorems of "
                            "Properties_C01.v) attached: whole runs of the real stacks must coincide with the verified models at binary64")
     run_corr(ctx, ctx.pid, scale, extra_oracle)
 
@@ -354,6 +408,10 @@ def run_corr(ctx, prefix, scale, extra_oracle=None):
             ctx.count("almstacks/%s/runs-with-accepted-accelerated-step" % cs.stack)
             if any(r["outer"] > 0 and r["k"] == 1 and sl.D(r, "tau") > 0 for r in o["records"] if r["status"] == "Busy"):
                 ctx.count("almstacks/%s/runs-with-accelerated-step-at-k=1-of-a-later-inner-solve" % cs.stack)
+        if cs.stack in TPROVIDERS:
+            ctx.count("almstacks/%s/%s" % (cs.stack, "finite-differences" if cs.accel.D_("fd") else "exact-hessian-products"))
+            if "exc" not in o and not cs.P_("disable_accel") and any(r["outer"] > 0 and r["status"] == "Busy" for r in o["records"]):
+                ctx.count("almstacks/%s/runs-with-direction-calls-in-a-later-inner-solve" % cs.stack)
         terms.append(coq_case(cs, o)); owners.append((cs, o))
     ctx.coverage["almstacks_whole_run_cases"] = dict(ncase)
     ctx.coverage["almstacks_converged_runs"] = dict(nconv)
